@@ -2,6 +2,8 @@
 CIRC = "hippolyzer/lib/proxy/circuit.py"
 PROXY = "hippolyzer/lib/proxy/lludp_proxy.py"
 SESS = "hippolyzer/lib/proxy/sessions.py"
+SOCKS = "hippolyzer/lib/proxy/socks_proxy.py"
+SERM = "hippolyzer/lib/base/message/udpserializer.py"
 
 _EVICT = ("        if len(self.injections) == self.injections.maxlen:\n"
           "            # ID is about to fall off, old enough we can just add\n"
@@ -212,6 +214,19 @@ VARIANTS = [
         {"file": CIRC, "old": "    def gen_injectable_id(self) -> int:\n",
          "new": "    @property\n    def _full(self):\n        return len(self.injections) == self.injections.maxlen\n\n    def gen_injectable_id(self) -> int:\n"},
         {"file": CIRC, "old": "        for packet_id in reversed(self.injections):\n", "new": "        tracked = self.injections\n        for packet_id in reversed(tracked):\n"}]},
+    {"name": "R7 base relay falls back to the plain pass-through when handling fails", "file": SOCKS, "expect": "C04.R7",
+     "old": "            logging.exception(\"Barfed while handling UDP packet!\")\n            raise\n",
+     "new": "            logging.exception(\"Barfed while handling UDP packet!\")\n            UDPProxyProtocol.handle_proxied_packet(self, src_packet)\n"},
+    {"name": "R7 session marks a live circuit dead by hand", "file": SESS, "expect": "C04.R7",
+     "old": "            if region.circuit_addr == circuit_addr:\n                if not region.circuit or not region.circuit.is_alive:",
+     "new": "            if region.circuit_addr == circuit_addr:\n                if region.circuit and transport is None:\n"
+            "                    region.circuit.is_alive = False\n                if not region.circuit or not region.circuit.is_alive:"},
+    {"name": "R7 serializer returns bytes kept from the received datagram", "file": SERM, "expect": "C04.R7",
+     "old": "        raw_body = msg.raw_body\n        if raw_body is not None:",
+     "new": "        raw_body = msg.raw_body\n        if raw_body is not None and not msg.acks and msg.meta.get(\"wire\"):\n"
+            "            return msg.meta[\"wire\"]\n        if raw_body is not None:"},
+    {"name": "P R7 serializer returns the written buffer through a local", "file": SERM, "expect": "silent",
+     "old": "        return writer.copy_buffer()\n", "new": "        out = writer\n        return out.copy_buffer()\n"},
     # ------------------------------------------------------------------ documented limits
     {"name": "X forward shift boundary < -> <= (value-level)", "file": CIRC, "expect": "miss",
      "old": "if new_id < packet_id and new_id not in self.injections:", "new": "if new_id <= packet_id and new_id not in self.injections:"},
